@@ -312,6 +312,11 @@ func parseMsgPipelineRcptCfg(globals map[string]interface{}, nodes []config.Node
 			return nil, config.NodeErr(node, "invalid directive")
 		}
 	}
+	if rcpt.rejectErr == nil && len(rcpt.targets) == 0 {
+		// Otherwise matching recipients would be accepted and then
+		// silently dropped.
+		return nil, fmt.Errorf("destination block without 'deliver_to', 'reroute' or 'reject', use 'reject' to reject messages")
+	}
 	return &rcpt, nil
 }
 
